@@ -229,6 +229,9 @@ def bad_items(res, stack, nserv, extra, op, tier):
         ("pickle", {k: (b"\xff\xfe not utf8", sd.FLAG_TEXT) for k in keys}),
         ("pickle", {k: (b"not-a-number", sd.FLAG_INTEGER) for k in keys}),
         ("pickle", {b"k1": (b"1x2", sd.FLAG_INTEGER), b"k2": (b"\xff", sd.FLAG_TEXT), b"k3": (b"x", sd.FLAG_LONG)}),
+        # large items: the rest of the reply is still on its way when the first item turns out to be unusable
+        ("raising", {k: (b"W" * 3000, 99) for k in keys}),
+        ("pickle", {k: (b"\xff" * 5000, sd.FLAG_TEXT) for k in keys}),
     ]
     for serde, items in scenarios:
         prefill = {i: dict(items) for i in range(nserv)}
